@@ -412,13 +412,20 @@ struct C08 : World {
       if ((feat & FT_SPECIAL) && r.chance(1, 6)) p.ops.push_back(mk(t, "spc", {(int64_t)r.below(16), (int64_t)r.below(2)}));
       if ((feat & FT_EDIT) && r.chance(1, 8)) {
         int k = (int)r.below(3);
-        if (k == 0) { std::string s2; word(r, s2, false); p.ops.push_back(mk(t, "txt", {0, 0}, s2)); int nb = 1 + (int)r.below(3); for (int i = 0; i < nb; i++) p.ops.push_back(mk(t, "bs", {(int64_t)r.below(2)})); }
+        if (k == 0) { std::string s2; word(r, s2, false); p.ops.push_back(mk(t, "txt", {0, 0}, s2)); int nb = r.chance(1, 3) ? (int)s2.size() + (int)r.below(9) : 1 + (int)r.below(3); for (int i = 0; i < nb; i++) p.ops.push_back(mk(t, "bs", {(int64_t)r.below(2)})); }
         else if (k == 1) p.ops.push_back(mk(t, "tab", {1 + (int64_t)r.below(3), (int64_t)r.below(2)}));
         else p.ops.push_back(mk(t, "der", {(int64_t)r.below(2)}));
       }
       if ((feat & FT_BGA) && r.chance(1, 8)) p.ops.push_back(mk(t, "bga", {(int64_t)r.below(17), (int64_t)r.below(2)}));
       if ((feat & FT_FON) && r.chance(1, 10)) p.ops.push_back(mk(t, "fon", {(int64_t)r.below(2)}));
     }
+  }
+  void gen_rowstart_edit(Rng& r, Plan& p, int t, unsigned feat) {  // BS at/near column 1, DER into existing text, right after a PAC
+    if (!(feat & FT_EDIT) || !r.chance(1, 6)) return;
+    if (r.chance(1, 2)) { p.ops.push_back(mk(t, "der", {(int64_t)r.below(2)})); return; }
+    std::string s2; int n = 1 + (int)r.below(2); for (int i = 0; i < n; i++) s2 += (char)('A' + r.below(26));
+    p.ops.push_back(mk(t, "txt", {0, 0}, s2));
+    int nb = 1 + (int)r.below(3); for (int i = 0; i < nb; i++) p.ops.push_back(mk(t, "bs", {(int64_t)r.below(2)}));
   }
   Op gen_pac(Rng& r, int t, unsigned feat, int row) {
     int64_t style;
@@ -484,6 +491,7 @@ struct C08 : World {
           int row0 = (int)r.below(15);
           for (int i = 0; i < rows; i++) {
             p.ops.push_back(gen_pac(r, t, feat, r.chance(1, 4) ? (int)r.below(15) : (row0 + i) % 15));
+            gen_rowstart_edit(r, p, t, feat);
             gen_text(r, p, t, feat, r.chance(1, 8) ? 9 : 3);
           }
           if ((feat & FT_ERASE) && r.chance(1, 3)) p.ops.push_back(mk(t, "edm", {(int64_t)r.below(2)}));
@@ -502,8 +510,12 @@ struct C08 : World {
         } else {  // paint-on: RDC (PAC text)*
           p.ops.push_back(mk(t, "mode", {4, (int64_t)r.below(2)}));
           int rows = 1 + (int)r.below(4);
+          int prow = -1;
           for (int i = 0; i < rows; i++) {
-            p.ops.push_back(gen_pac(r, t, feat, (int)r.below(15)));
+            int row = (prow >= 0 && r.chance(1, 3)) ? prow : (int)r.below(15);  // revisit a row: paint over / DER into existing text
+            prow = row;
+            p.ops.push_back(gen_pac(r, t, feat, row));
+            gen_rowstart_edit(r, p, t, feat);
             gen_text(r, p, t, feat, r.chance(1, 8) ? 9 : 3);
           }
           if ((feat & FT_ERASE) && r.chance(1, 3)) p.ops.push_back(mk(t, "edm", {(int64_t)r.below(2)}));
@@ -553,6 +565,7 @@ struct C08 : World {
     vbi_char prev[8][15 * 34];
     double ts = 2000.0;
     int frames = 0, compares = 0, nonblank_compares = 0;
+    bool active[8] = {false};
     std::set<int> compared_chans;
     int lines[2] = {21, 284};
     unsigned sliced_id = VBI_SLICED_CAPTION_525;
@@ -668,6 +681,8 @@ struct C08 : World {
     if (s.bad_event) { s.ctx->fail("oracle:event-pgno", "VBI_EVENT_CAPTION with pgno %d", s.bad_pgno); return; }
     // fetch all eight pages: cross-talk check (a channel that is not addressed must not change) + sync comparison
     for (int chn = 0; chn < 8 && !s.ctx->failed; chn++) {
+      // channels without a script can only change through cross-talk: looked at every 8th frame (cost)
+      if (!s.active[chn] && (s.frames & 7) != 0) continue;
       vbi_page pg;
       vbi_bool ok;
       budget_begin("vbi_fetch_cc_page", 200000);
@@ -776,6 +791,7 @@ struct C08 : World {
     }
     std::vector<std::vector<const Op*>> per(8);
     for (auto& op : plan.ops) per[((op.task % 8) + 8) % 8].push_back(&op);
+    for (int t = 0; t < 8; t++) st.active[t] = !per[t].empty();
 
     int resumes = 0;
     // one control code of channel t (resume code first when the field's sender changed)
